@@ -427,3 +427,14 @@ def rnest(model: Model, rr: RuleResult):
         rr.ok("_update_paint_glyph leaves every non-PaintGlyph paint untouched")
     else:
         rr.bad(wf, first, "_update_paint_glyph may rewrite paints other than PaintGlyph", construct=short(first, 80))
+
+
+@RULES.rule("C01", "R01h", "the viewBox -> em map is built from explicit scale/translate literals (rect_to_rect is the identity for an empty source rectangle)", floor=1)
+def r01h(model: Model, rr: RuleResult):
+    fi = model.func("color_glyph", "scale_viewbox_to_font_metrics")
+    r2r = [c for c in calls_in(fi) if callee_tail(c) == "rect_to_rect"]
+    if r2r:
+        rr.bad(fi, r2r[0], f"{short(r2r[0], 70)}: Affine2D.rect_to_rect returns the identity when the source rectangle is empty, and a zero-width viewBox (zero-advance combining marks, "
+               f"`viewBox=\"0 0 0 1200\"`) is empty: such a glyph is no longer scaled to the font's height", construct="scale_viewbox_to_font_metrics: rect_to_rect")
+    else:
+        rr.ok("scale_viewbox_to_font_metrics does not use rect_to_rect")
